@@ -57,7 +57,7 @@ Print Assumptions C12_kernel_table_covers.
 
 (* What the table must contain is written by hand (Obl/BoundsReq.bounds_required: 45 configurations, every function of
    the masked word / state / key toolkit and the masked permutations, every value 0..8 of size / offset, first_round
-   0..13, both aliasing shapes, null objects: 1489 requirements), and whether a call is within contract is decided by
+   0..13, both aliasing shapes, null objects, and the incremental AEAD functions below: 2491 requirements), and whether a call is within contract is decided by
    the hand-written predicate Model/BoundsDefs.in_contract (load_partial 1..7, store_partial / replace 0..7, pad 0..7,
    first_round 0..12, everything else always) - [entry_ok] above uses it, not the generator's flag.
    For every requirement: in_contract agrees with the hand-written flag, and the regenerated table has the run of
@@ -76,6 +76,25 @@ Theorem C12_kernel_flags_and_extent :
   forallb valid_flag_ok bounds_entries = true /\ forallb (bentry_listed bounds_required) bounds_entries = true.
 Proof. exact (conj bounds_flags_agree bounds_all_listed). Qed.
 Print Assumptions C12_kernel_flags_and_extent.
+
+(* The incremental AEAD functions (ascon{128,128a,80pq}_aead_init / _reinit / _start / _encrypt_block / _decrypt_block /
+   _encrypt_finalize / _decrypt_finalize / _free) are part of the same table: 1002 of the requirements of bounds_required
+   (Obl/BoundsReq.inc_required: three state layouts; key and nonce given / NULL / the object's own nonce field; associated data and
+   chunk lengths 0, 1, rate-1, rate, rate+1, 2 rate+3; every posn of the finalisers; in place and not; free of an object and of
+   NULL), every one within contract and met by a run that is NOT stuck with the key a region of exactly 16 / 20 bytes, nonce and tag of
+   16, the state object of 80 and every data buffer of exactly the length passed. *)
+Theorem C12_kernel_incremental_aead :
+  List.length inc_required = 1002%nat /\ incl inc_required bounds_required /\
+  forallb (fun q => snd q) inc_required = true /\
+  forallb (breq_met (fun _ => false) bounds_entries) inc_required = true /\
+  existsb (fun e => String.eqb (be_config e) "aead-inc/default") bounds_entries = true /\
+  breq_in "aead-inc/c32"%string "ascon80pq_aead_init"%string [("k", 1%N); ("npub", 0%N)]%string inc_required = true /\
+  breq_in "aead-inc/default"%string "ascon128a_aead_reinit"%string [("k", 0%N); ("npub", 2%N)]%string inc_required = true /\
+  breq_in "aead-inc/directxor"%string "ascon128_aead_decrypt_block"%string [("alias", 1%N); ("len", 19%N); ("posn", 7%N)]%string inc_required = true /\
+  breq_in "aead-inc/default"%string "ascon80pq_aead_start"%string [("adlen", 0%N)]%string inc_required = true /\
+  breq_in "aead-inc/c32"%string "ascon128a_aead_decrypt_finalize"%string [("posn", 15%N)]%string inc_required = true.
+Proof. exact inc_required_checked. Qed.
+Print Assumptions C12_kernel_incremental_aead.
 
 (* ================================================================== 2. length arithmetic *)
 
